@@ -36,6 +36,9 @@ func (s zzSel) selector() metav1.LabelSelector {
 		return metav1.LabelSelector{MatchExpressions: []metav1.LabelSelectorRequirement{{Key: "k", Operator: metav1.LabelSelectorOpNotIn, Values: []string{"a"}}}}
 	case "exists":
 		return metav1.LabelSelector{MatchExpressions: []metav1.LabelSelectorRequirement{{Key: "k", Operator: metav1.LabelSelectorOpExists}}}
+	case "labels-illegal":
+		// unusable without any expression: a label value that is not a legal one
+		return metav1.LabelSelector{MatchLabels: map[string]string{"k": "not a legal value"}}
 	}
 	return metav1.LabelSelector{MatchExpressions: []metav1.LabelSelectorRequirement{{Key: "k", Operator: "Bogus", Values: []string{"a"}}}}
 }
@@ -62,7 +65,7 @@ func zzCreatedMax(n int, small bool) int {
 	return n - 1
 }
 
-func (s zzSel) usable() bool { return s.kind != "bogus" }
+func (s zzSel) usable() bool { return s.kind != "bogus" && s.kind != "labels-illegal" }
 
 func zzPickSel(label string, small bool) zzSel {
 	if small {
@@ -75,7 +78,9 @@ func zzPickSel(label string, small bool) zzSel {
 		}
 		return zzSel{"bogus"}
 	}
-	switch nondet.String(label, "labels-a", "labels-b", "in-a", "notin-a", "exists", "bogus") {
+	switch nondet.String(label, "labels-a", "labels-b", "in-a", "notin-a", "exists", "bogus", "labels-illegal") {
+	case "labels-illegal":
+		return zzSel{"labels-illegal"}
 	case "labels-a":
 		return zzSel{"labels-a"}
 	case "labels-b":
